@@ -8,13 +8,13 @@ import numpy as np
 from hypothesis import strategies as st
 
 from .. import dasktools, gen, model
-from ..harness import Failure, lib, outcome
+from ..harness import lib, outcome
 
 PROPERTY = 'C09'
 LEVEL = 'exploration'
 RULE = ('E1 (Hypothesis). A case is a pandas-level frame of 1..24 rows with 1-3 geometry columns (each of a drawn kind out of 7 '
         'and subtype out of 5, "any structure" elements on a small lattice, missing / empty elements, earlier elements repeated '
-        'so that Hilbert distances tie), a drawn ACTIVE geometry column, a unique id column and int / float(NaN) / str(None) '
+        'so that Hilbert distances tie, rows optionally spread out by per-row translations so that most distances differ), a drawn ACTIVE geometry column, a unique id column and int / float(NaN) / str(None) '
         'columns, default or non-unique string index; two input partitionings of that frame (ordered compositions of the rows '
         'into 1..5 parts, empty parts allowed, or dd.from_pandas), optionally with the rows pre-sorted by their reference '
         'distance (already sorted input); npartitions in 1..8; p in 1..20. For each partitioning '
@@ -23,14 +23,16 @@ RULE = ('E1 (Hypothesis). A case is a pandas-level frame of 1..24 rows with 1-3 
         'geometry of every geometry column, keyed by id), index value of each row == GeoSeries.hilbert_distance of the whole '
         'frame for the active column with the whole frame\'s total_bounds (index name hilbert_distance), index non-decreasing '
         'inside each partition and from one partition to the next, number of partitions (attribute and materialised) == '
-        'requested, rows sorted by (index, id) equal for the two partitionings. A call that raises is counted '
-        '(label raised:<Type>) and claims nothing. Non-trivial: a returned call with >= 2 input partitions and >= 2 requested '
+        'requested, rows sorted by (index, id) equal for the two partitionings. A pack_partitions call that raises is counted '
+        '(label raised:<Type>) and claims nothing; an exception while materialising a result that was returned is a failure '
+        '(the result then does not contain the rows). Non-trivial: a returned call with >= 2 input partitions and >= 2 requested '
         'output partitions on a frame that has tied distances or a missing/empty active geometry. distinct = distinct cases.')
 ASSUMPTIONS = ['the pandas-level GeoSeries.hilbert_distance with explicit total_bounds is the per-row reference (its correctness is C08)',
                'pandas-level total_bounds of the whole frame is the reference extent (its correctness is C13)',
                'pyarrow decodes the stored elements (canonical form) correctly',
                'the original index of the input frame is not part of a row (set_index replaces it); nothing is asserted about it',
-               'a Dask partition is what to_delayed() materialises; `npartitions` is additionally read as an attribute']
+               'a Dask partition is what to_delayed() materialises (all partitions computed in one dask.compute so the shuffle runs once); `npartitions` is additionally read as an attribute',
+               'the Dask version installed never raised in pack_partitions on the generated frames (fraction of raised calls is reported in labels)']
 BUDGET = {'quick': {'shards': 16, 'examples': 800, 'min_evaluations': 400, 'shrink_cap': 20},
           'thorough': {'shards': 16, 'examples': 16000, 'min_evaluations': 8000}}
 
